@@ -188,6 +188,7 @@ struct ChannelMap
     bool singular = false;   // one channel's density is infinite at some points
     bool early = false;      // densities are written when coordinates are requested
     bool sparse = false;     // the map writes the densities of the enabled channels only and leaves the rest alone
+    bool all = false;        // the map fills in every channel's density, whether enabled or not (as the shipped examples do)
     int coord_ret = 0;       // value returned from the coordinate request (documented as ignored): 0 jacobian, 1 zero, 2 one, 3 NaN
     long double jac = 1;
 
